@@ -534,6 +534,10 @@ def boolean_and_simplifier(*args):
 
 
 def boolean_or_simplifier(*args):
+    if len(args) == 0:
+        # the empty disjunction (And() is true the same way)
+        return claripy.false()
+
     needs_rewrite = False
     for a in args:
         if a.op == "BoolV":
